@@ -19,12 +19,20 @@ constexpr uint32_t kMaxRelocs = 3;
 union HolderBox { CodeHolder c; HolderBox() noexcept {} ~HolderBox() noexcept {} };
 static HolderBox code_mem;
 static Section sect_mem[kMaxSections];  // [0] unused: section 0 is CodeHolder::_text_section
-// The two section tables live in byte storage: CBMC models memmove/memcpy with a symbolic length (ArenaVector::insert_unchecked)
-// exactly only on byte arrays (on pointer-typed arrays it havocs the destination). Access through by_id() / by_order().
+// The two section tables. CBMC models memmove/memcpy with a *symbolic* length exactly only on byte arrays (on pointer-typed
+// arrays it havocs the destination): a harness that reaches ArenaVector::insert_unchecked (new_section) defines
+// CHENV_BYTE_TABLES before including this file; everything else uses the cheaper pointer-typed tables.
+#ifdef CHENV_BYTE_TABLES
 alignas(8) static uint8_t by_id_raw[(kMaxSections + 1) * sizeof(Section*)];
 alignas(8) static uint8_t by_order_raw[(kMaxSections + 1) * sizeof(Section*)];
 static inline Section** by_id() { return reinterpret_cast<Section**>(by_id_raw); }
 static inline Section** by_order() { return reinterpret_cast<Section**>(by_order_raw); }
+#else
+static Section* by_id_tab[kMaxSections + 1];
+static Section* by_order_tab[kMaxSections + 1];
+static inline Section** by_id() { return by_id_tab; }
+static inline Section** by_order() { return by_order_tab; }
+#endif
 static uint8_t sbuf[kMaxSections][kBufCap];
 static LabelEntry label_tab[kMaxLabels + 1];
 static RelocEntry* reloc_tab[kMaxRelocs + 1];
@@ -41,8 +49,12 @@ static inline Section* sec(uint32_t i) { return i == 0 ? &holder()->_text_sectio
 // the others look like the result of new_section (alignment 1, order 0, no offset). Buffers: 32 bytes capacity, size 0.
 static inline CodeHolder* make_holder(Arch arch, uint32_t n) {
   CodeHolder* c = holder();
+#if !defined(VERIF_CBMC)
+  // Native twins run many streams in one process. Under CBMC every object below is still in its zero-initialised static
+  // state when the (single) harness call starts, and a memset over typed objects would cost the solver a byte-level model.
   memset(&code_mem, 0, sizeof(code_mem)); memset(sect_mem, 0, sizeof(sect_mem)); memset(sbuf, 0, sizeof(sbuf));
   memset(label_tab, 0, sizeof(label_tab)); memset(reloc_mem, 0, sizeof(reloc_mem));
+#endif
   c->_environment.init(arch);
   c->_base_address = Globals::kNoBaseAddress;
   c->_arena._ptr = arena_block; c->_arena._end = arena_block + sizeof(arena_block);  // see set_arena
